@@ -36,15 +36,6 @@ var (
 	flagWorkers  = flag.Int("workers", 16, "number of worker subprocesses")
 )
 
-func envInt(k string, d int) int {
-	if v := os.Getenv(k); v != "" {
-		var n int
-		fmt.Sscan(v, &n)
-		return n
-	}
-	return d
-}
-
 func histories(thorough bool) []reclib.History {
 	b := reclib.NewBuilder(1)
 	hs := []reclib.History{
@@ -55,9 +46,8 @@ func histories(thorough bool) []reclib.History {
 				b.Build(reclib.SessionOpts{Video: true, Audio: true, PTS0: 2 * time.Second,
 					VideoPeriod: 50 * time.Millisecond, VideoCount: 13, GOP: 5, AudioCount: 28, VideoSize: 20, AudioSize: 6}),
 				b.Build(reclib.SessionOpts{Video: true, Audio: true, Start: 10 * time.Second, PTS0: 500 * time.Millisecond,
-					AudioLead:   time.Duration(envInt("C27_LEAD", -60)) * time.Millisecond,
-					AudioSkew:   time.Duration(envInt("C27_SKEW", 200)) * time.Millisecond,
-					VideoPeriod: 50 * time.Millisecond, VideoCount: envInt("C27_VC", 11), GOP: 4, AudioCount: envInt("C27_AC", 22), VideoSize: 14, AudioSize: 5}),
+					AudioLead: -60 * time.Millisecond, AudioSkew: 200 * time.Millisecond,
+					VideoPeriod: 50 * time.Millisecond, VideoCount: 12, GOP: 4, AudioCount: 20, VideoSize: 14, AudioSize: 5}),
 			}},
 		{Name: "audio-only", PartDuration: 100 * time.Millisecond, SegmentDuration: 300 * time.Millisecond,
 			Sessions: []reclib.Session{b.Build(reclib.SessionOpts{Audio: true, PTS0: 1 * time.Second,
@@ -68,6 +58,14 @@ func histories(thorough bool) []reclib.History {
 				VideoPeriod: 50 * time.Millisecond, VideoCount: 20, GOP: 4, FirstIDR: 2, VideoSize: 17})}},
 	}
 	if thorough {
+		// these two are followed by a restart and a second session as well (appended: the write
+		// log of the first session, hence every crash state of the quick tier, is unchanged)
+		hs[1].Name += ", then a restart and a second session"
+		hs[1].Sessions = append(hs[1].Sessions, b.Build(reclib.SessionOpts{Audio: true, Start: 10 * time.Second, PTS0: 300 * time.Millisecond,
+			AudioCount: 18, AudioSize: 7}))
+		hs[2].Name += ", then a restart and a second session"
+		hs[2].Sessions = append(hs[2].Sessions, b.Build(reclib.SessionOpts{Video: true, Start: 10 * time.Second, PTS0: 700 * time.Millisecond,
+			VideoPeriod: 50 * time.Millisecond, VideoCount: 9, GOP: 3, VideoSize: 11}))
 		hs = append(hs,
 			reclib.History{Name: "video+audio, audio leads, larger payloads", PartDuration: 150 * time.Millisecond, SegmentDuration: 400 * time.Millisecond,
 				Sessions: []reclib.Session{b.Build(reclib.SessionOpts{Video: true, Audio: true, PTS0: 5 * time.Second, AudioLead: 80 * time.Millisecond,
@@ -78,6 +76,47 @@ func histories(thorough bool) []reclib.History {
 		)
 	}
 	return hs
+}
+
+// streamShapes is the family of streams used for the clauses about segments closed normally
+// (true duration, random-access start, recorded = sent, loss bound, log shape): every
+// combination of an audio/video timestamp skew and a part duration, recorded and closed
+// normally. No crash states are derived from them (the crash states come from histories()).
+// The track whose timestamps are behind is the one that starts first, so that the recorder
+// has no reason to discard a sample as "too late".
+func streamShapes(b *reclib.Builder) []reclib.History {
+	var out []reclib.History
+	ms := time.Millisecond
+	for _, part := range []time.Duration{20 * ms, 100 * ms, 1000 * ms} {
+		for _, skew := range []time.Duration{-300 * ms, -150 * ms, -50 * ms, 0, 50 * ms, 150 * ms, 300 * ms} {
+			lead := time.Duration(0)
+			switch {
+			case skew > 0:
+				lead = -60 * ms // video first
+			case skew < 0:
+				lead = 80 * ms // audio first
+			}
+			out = append(out, shape(b, part, skew, lead))
+		}
+	}
+	// both tracks start together although the audio timestamps are ahead: the first sample the
+	// recorder can write is an audio one, the video units it holds at that moment are older
+	for _, skew := range []time.Duration{50 * ms, 150 * ms, 300 * ms} {
+		out = append(out, shape(b, 100*ms, skew, 0))
+	}
+	return out
+}
+
+func shape(b *reclib.Builder, part, skew, lead time.Duration) reclib.History {
+	ms := time.Millisecond
+	return reclib.History{
+		Name: fmt.Sprintf("stream shape: video+audio, audio timestamps %+dms against the arrival order, audio begins %dms before video, parts of %dms",
+			skew/ms, lead/ms, part/ms),
+		PartDuration: part, SegmentDuration: 250 * ms,
+		Sessions: []reclib.Session{b.Build(reclib.SessionOpts{Video: true, Audio: true, PTS0: 4 * time.Second,
+			AudioLead: lead, AudioSkew: skew,
+			VideoPeriod: 50 * ms, VideoCount: 14, GOP: 3, AudioCount: 30, VideoSize: 9, AudioSize: 4})},
+	}
 }
 
 func main() {
@@ -108,8 +147,9 @@ func main() {
 
 	r := vcommon.Start("C27", "fault_enumeration")
 	r.Rule = "crash states = for every history: every prefix of the write log; the next write torn at every byte (quick: header writes every byte below 128 then every 8th); the next appending write " +
-		"zero-filled from every byte (quick: every byte below 128, then every 4th); every non-suffix subset of the last 3 writes lost. distinct = (history, kind of state, per-file shape " +
-		"[header, complete parts, kind of tail, duration field], status of every playback request)"
+		"zero-filled from every byte (quick: every byte below 128, then every 4th); every non-suffix subset of the last 3 writes lost; each of those that interrupts a session followed by another one " +
+		"also with the files of the later sessions (restart, closed normally) on disk. distinct = (history, kind of state, per-file shape " +
+		"[header, complete parts, kind of tail, duration field], status of every playback request). Stream shapes (skew x part duration) are recorded and closed normally: clauses about closed segments only"
 	// a replay looks its state up in the largest enumeration (the thorough one)
 	full := r.Thorough() || *flagReplay != ""
 	histTier := r.Tier
@@ -117,6 +157,9 @@ func main() {
 		histTier = "thorough"
 	}
 	hs := histories(full)
+	nCrashHist := len(hs)
+	// unit ids of the stream shapes do not collide with those of the histories
+	hs = append(hs, streamShapes(reclib.NewBuilder(100000))...)
 
 	base, err := reclib.TempDir("c27")
 	if err != nil {
@@ -130,18 +173,34 @@ func main() {
 	syscallsMatched := 0
 	totalOps := 0
 	steps := 0
+	shapes := 0
+	lateDiscarded := 0
 
-	for hi, h := range hs {
+	// every history is recorded in a directory of its own (concurrently: they share nothing)
+	type recorded struct {
+		rec   *reclib.Recording
+		snaps []map[string][]byte
+		err   error
+	}
+	recs := make([]recorded, len(hs))
+	vcommon.Parallel(len(hs), func(hi int) {
 		dir := filepath.Join(base, fmt.Sprintf("rec%d", hi))
 		_ = os.MkdirAll(dir, 0o755)
-		var snaps []map[string][]byte
-		rec, err := reclib.Record(dir, "p", h, func(_, _, _ int) {
+		rc := &recs[hi]
+		rc.rec, rc.err = reclib.Record(dir, "p", hs[hi], func(_, _, _ int) {
 			s, err2 := reclib.Snapshot(dir)
-			if err2 != nil {
-				harnessErr("snapshot: %v", err2)
+			if err2 != nil && rc.err == nil {
+				rc.err = fmt.Errorf("snapshot: %v", err2)
 			}
-			snaps = append(snaps, s)
+			rc.snaps = append(rc.snaps, s)
 		})
+	})
+
+	for hi, h := range hs {
+		rec, snaps, err := recs[hi].rec, recs[hi].snaps, recs[hi].err
+		if err == nil && recs[hi].rec == nil {
+			err = fmt.Errorf("not recorded")
+		}
 		if err != nil {
 			harnessErr("history %q: %v", h.Name, err)
 		}
@@ -201,8 +260,33 @@ func main() {
 		}
 
 		// ---- baseline: the normally closed recording holds exactly what was sent
+		discarded := map[int]bool{} // units missing at the head of a track (reported here, once)
 		for _, d := range reclib.CompareWithSent(h, segs) {
+			for _, u := range d.Units {
+				discarded[u] = true
+			}
+			if d.Key == "leading-samples-older-than-first-segment-missing" {
+				// don't-care: the recorder discards, with a warning, the samples that are older than
+				// the first sample it could write (the repository's own tests demand it); the
+				// clauses about the segments on disk are judged on what was recorded
+				lateDiscarded += len(d.Units)
+				continue
+			}
 			r.Violation("recorded-media-differs:"+d.Key, fmt.Sprintf("history %q: %s", h.Name, d.What), map[string]any{"history": h})
+		}
+		exp := reclib.Expected(h)
+		// per unit: are units of the same track missing at the head of the recording?
+		headMissing := map[int]bool{}
+		for si := range exp {
+			for ti := range exp[si] {
+				miss := false
+				for _, s := range exp[si][ti] {
+					miss = miss || discarded[s.UnitID]
+				}
+				for _, s := range exp[si][ti] {
+					headMissing[s.UnitID] = miss
+				}
+			}
 		}
 
 		// ---- section C: segments closed normally
@@ -224,8 +308,15 @@ func main() {
 					if !seen[s.TrackID] {
 						seen[s.TrackID] = true
 						if sg.Info.Track(s.TrackID).Video && !s.Sync {
-							r.Violation("closed-segment:starts-without-random-access",
-								fmt.Sprintf("history %q: %s begins with non-sync video sample (unit %d)", h.Name, filepath.Base(sg.Rel), s.UnitID),
+							key, why := "closed-segment:starts-without-random-access", ""
+							if sg.Info.SegNumber == 0 && headMissing[s.UnitID] {
+								// a class of its own: the first segment of the stream, whose leading video
+								// units (with the random-access one) were not recorded at all
+								key += ":leading-video-not-recorded"
+								why = "; the video units sent before it are not recorded"
+							}
+							r.Violation(key,
+								fmt.Sprintf("history %q: %s begins with non-sync video sample (unit %d)%s", h.Name, filepath.Base(sg.Rel), s.UnitID, why),
 								map[string]any{"history": h, "file": sg.Rel})
 						}
 					}
@@ -238,7 +329,6 @@ func main() {
 		// samples the recorder has accepted but that are not in a complete part on disk must all
 		// belong to the one part being accumulated: the next part that reaches the disk, plus the
 		// newest sample of every track (the recorder needs the following sample to know its duration).
-		exp := reclib.Expected(h)
 		type pref struct {
 			file string
 			part int
@@ -291,8 +381,8 @@ func main() {
 						if recorded && nextPart != nil && pp == *nextPart {
 							continue
 						}
-						if !recorded && s.Last {
-							continue
+						if !recorded && (s.Last || discarded[s.UnitID]) {
+							continue // held back at close / never recorded (reported by the comparison with the units sent)
 						}
 						lost = append(lost, s.UnitID)
 					}
@@ -303,6 +393,11 @@ func main() {
 					fmt.Sprintf("history %q: after step %d the units %v are neither on disk nor part of the part being accumulated", h.Name, step, lost),
 					map[string]any{"history": h, "step": step, "units": lost})
 			}
+		}
+
+		if hi >= nCrashHist {
+			shapes++
+			continue // a stream shape: only the clauses about normally closed recordings
 		}
 
 		// ---- syscall boundaries
@@ -464,6 +559,8 @@ func main() {
 	}
 
 	r.Set("histories", len(corpus.Hists))
+	r.Set("stream_shapes_closed_normally", shapes)
+	r.Set("leading_units_discarded_as_late_tolerated", lateDiscarded)
 	r.Set("history_steps", steps)
 	r.Set("write_log_entries", totalOps)
 	r.Set("crash_states", len(corpus.States))
@@ -493,6 +590,9 @@ func main() {
 		"no os selector was rewritten; crash states are derived from the log, not from failpoints",
 		"a single write(2) that rewrites bytes inside one 512-byte sector is atomic; every other write can be torn at any byte",
 		"lost-write subsets are limited to the last 3 writes; a lost append followed by a surviving one leaves zeros",
+		"after a restart the later sessions are recorded completely and closed normally; the restarted recorder neither reads nor modifies files of earlier sessions (checked on the write log of the uninterrupted history)",
+		"samples older than the first sample the recorder could write, and the non-random-access video samples depending on them, are discarded by design: their absence is a don't-care",
+		"a watchdog expiry counts as a hang only when the case, alone on a fresh worker with three times the budget, does not end either",
 		"PTS == DTS in every history (no frame reordering); H.264 and MPEG-4 audio tracks only",
 		"the newest unit of every track at close time is held back by the recorder: its presence is a don't-care",
 		"list must cover the complete parts within 2 ms (the header stores milliseconds, file names microseconds)",
